@@ -424,6 +424,12 @@ def _fam():
     add("dynexpr_var_filtered_tag", "tag:component", 150, lambda r: "'" + "{{}}" * r + "'|lower", "dynexpr")
     add("dynexpr_open_only", "direct", 400, lambda r: '"' + "{{" * r + '"')
     add("dynexpr_mixed", "direct", 75, lambda r: '"' + "{{%}{#}}" * r + "x", "dynexpr")
+    # ... and the same shapes in values that span several lines (`.` and `$` treat newlines specially)
+    add("dynexpr_multiline_var", "direct", 150, lambda r: '"' + "{{}}" * r + '\nsecond line"', "dynexpr")
+    add("dynexpr_multiline_block", "direct", 150, lambda r: "'\n" + "{%%}" * r + "'", "dynexpr")
+    add("dynexpr_multiline_unterminated", "direct", 150, lambda r: "'" + "{##}" * r + "\n", "dynexpr")
+    add("dynexpr_multiline_every", "direct", 100, lambda r: '"' + "{{}}\n" * r + '"', "dynexpr")
+    add("dynexpr_multiline_tag", "tag:component", 150, lambda r: 'k="' + "{{}}" * r + '\nx"', "dynexpr")
     # containers
     add("deep_list_open", "direct", 500, lambda r: "[" * r)
     add("deep_list", "direct", 500, lambda r: "[" * r + "1" + "]" * r, "deep_brackets")
